@@ -344,7 +344,10 @@ fn top_of(root: &str) -> String {
 const NEST: &str = "/1/2/3/s";
 
 fn norm(r: &Res, root: &str) -> String {
-    format!("{:?}", r).replace(root, "<R>").replace(&top_of(root), "<T>")
+    // (a copy under follow recreates absolute target paths below its destination - the recorded C09 finding - so the
+    // name of the top directory itself, A or B, can show up as the file name of an entry)
+    let top = top_of(root);
+    format!("{:?}", r).replace(root, "<R>").replace(&top, "<T>").replace(&format!("file_name: Some({:?})", base_of(&top)), "file_name: Some(\"<top>\")")
 }
 
 /// the entries below `root` in the order the kernel lists them (what a traversal of the real backend follows)
@@ -419,6 +422,12 @@ fn run_stdfs_transcript(ops: &[Op], ra: &str, rb: &str, rep: &mut Report, tag: &
                     ("direct", J::s(n1.chars().take(300).collect::<String>())),
                     ("through_wrapper", J::s(n2.chars().take(300).collect::<String>())),
                     ("workload", J::s(tag)),
+                    ("first_difference_in_result", J::s({
+                        let i = n1.bytes().zip(n2.bytes()).position(|(a, b)| a != b).unwrap_or(n1.len().min(n2.len()));
+                        let lo = (0..=i.saturating_sub(160)).rev().find(|k| n1.is_char_boundary(*k) && n2.is_char_boundary(*k)).unwrap_or(0);
+                        let cut = |s: &str| s[lo..].chars().take(400).collect::<String>();
+                        format!("at byte {}: direct …{} | wrapped …{}", i, cut(&n1), cut(&n2))
+                    })),
                     ("raw_tree_direct", disk_ntree(ra).to_json()),
                     ("raw_tree_wrapped", disk_ntree(rb).to_json()),
                     ("tree_direct_vs_wrapped", J::s(diff_maps(&t1.iter().cloned().collect(), &t2.iter().cloned().collect()))),
